@@ -47,6 +47,7 @@ type rewriter struct {
 	errs     []string
 	chanRng  map[int]bool
 	mapRng   map[int]bool
+	mapRngX  map[string]bool // range expressions (source text) to iterate in sorted key order
 }
 
 func main() {
@@ -72,6 +73,27 @@ func main() {
 	fmt.Println(string(b))
 }
 
+// exprsFor: entries "file:expr" whose expr is not a number select range statements by their range expression text.
+func exprsFor(spec, rel string) map[string]bool {
+	m := map[string]bool{}
+	for _, s := range strings.Split(spec, ",") {
+		i := strings.IndexByte(s, ':')
+		if i < 0 || s[:i] != rel {
+			continue
+		}
+		if _, err := strconv.Atoi(s[i+1:]); err != nil {
+			m[s[i+1:]] = true
+		}
+	}
+	return m
+}
+
+func exprText(e ast.Expr) string {
+	var b bytes.Buffer
+	_ = format.Node(&b, token.NewFileSet(), e)
+	return b.String()
+}
+
 func linesFor(spec, rel string) map[int]bool {
 	m := map[int]bool{}
 	for _, s := range strings.Split(spec, ",") {
@@ -94,7 +116,7 @@ func instrument(abs, rel string) (string, error) {
 	if err != nil {
 		return "", err
 	}
-	r := &rewriter{fset: fset, file: file, path: abs, rel: rel, chanRng: linesFor(*chanRange, rel), mapRng: linesFor(*mapRange, rel)}
+	r := &rewriter{fset: fset, file: file, path: abs, rel: rel, chanRng: linesFor(*chanRange, rel), mapRng: linesFor(*mapRange, rel), mapRngX: exprsFor(*mapRange, rel)}
 	r.imports()
 	r.rewriteNode(file)
 	if len(r.errs) > 0 {
@@ -180,6 +202,11 @@ func (r *rewriter) imports() {
 			if local == "" {
 				im.Name = ast.NewIdent("semaphore")
 			}
+		case "context":
+			im.Path.Value = strconv.Quote(*mod + "/zzverif/vctx")
+			if local == "" {
+				im.Name = ast.NewIdent("context")
+			}
 		case "time":
 			if local == "" {
 				local = "time"
@@ -217,6 +244,19 @@ func (r *rewriter) fixImports() {
 			&ast.ValueSpec{Names: []*ast.Ident{ast.NewIdent("_")}, Type: sel(r.timeName, "Duration")},
 		}})
 	}
+}
+
+func (r *rewriter) isPkgName(n string) bool {
+	for _, im := range r.file.Imports {
+		if im.Name != nil && im.Name.Name == n {
+			return true
+		}
+		p, _ := strconv.Unquote(im.Path.Value)
+		if im.Name == nil && (p == n || strings.HasSuffix(p, "/"+n)) {
+			return true
+		}
+	}
+	return false
 }
 
 func sel(x, s string) *ast.SelectorExpr {
@@ -267,6 +307,12 @@ func (r *rewriter) rewriteExpr(e ast.Expr) ast.Expr {
 	case *ast.CallExpr:
 		if id, ok := x.Fun.(*ast.Ident); ok && id.Name == "close" && len(x.Args) == 1 {
 			return r.vcall("Close", x.Args[0])
+		}
+		// X.Err() (context-like reads of shared cancellation state) become scheduling points
+		if s, ok := x.Fun.(*ast.SelectorExpr); ok && s.Sel.Name == "Err" && len(x.Args) == 0 {
+			if id, isIdent := s.X.(*ast.Ident); !isIdent || id.Obj != nil || !r.isPkgName(id.Name) {
+				return r.vcall("PErr", s.X)
+			}
 		}
 	case *ast.SelectorExpr:
 		if *doTime && r.timeName != "" {
@@ -418,7 +464,7 @@ func (r *rewriter) rewriteStmt(s ast.Stmt) ast.Stmt {
 		if r.chanRng[line] {
 			return r.rewriteChanRange(x)
 		}
-		if r.mapRng[line] {
+		if r.mapRng[line] || (len(r.mapRngX) > 0 && r.mapRngX[exprText(x.X)]) {
 			return r.rewriteMapRange(x)
 		}
 	}
@@ -546,6 +592,10 @@ func (r *rewriter) rewriteSelect(s *ast.SelectStmt) ast.Stmt {
 	hd := "false"
 	if hasDefault {
 		hd = "true"
+	} else {
+		// keeps the statement "terminating" exactly when the select was (a switch needs a default for that)
+		sw.Body.List = append(sw.Body.List, &ast.CaseClause{Body: []ast.Stmt{&ast.ExprStmt{X: &ast.CallExpr{
+			Fun: ast.NewIdent("panic"), Args: []ast.Expr{&ast.BasicLit{Kind: token.STRING, Value: strconv.Quote("vsched: select returned no case")}}}}}})
 	}
 	args := append([]ast.Expr{ast.NewIdent(hd)}, cases...)
 	sw.Tag = r.vcall("Select", args...)
